@@ -1,57 +1,265 @@
 import StepModel.ComplexInit
-/-! Lemmas about `EntNode::sort` (`sortNodes`). -/
+/-! `EntNode::sort` (`sortSeg`/`sortNodes`): ascending lists are left alone (both `lastSmaller` variants); with the
+non-strict `lastSmaller` every list is sorted: the result is an ascending permutation, without crash, within the fuel. -/
 namespace StepModel.Complex.Match
 open StepModel.Generated StepModel.Complex
 
-theorem sortFrom_succ (ns : Bool) (f : Nat) (L : List Name) (i : Nat) :
-    sortFrom ns (f + 1) L i =
-      (match L[i]?, L[i + 1]? with
-       | some a, some v =>
-         if a > v then
-           match sortSwitch ns L i v with
-           | .ok (L', i') => sortFrom ns f L' i'
-           | .crash c => .crash c
-           | .outOfFuel => .outOfFuel
-         else sortFrom ns f L (i + 1)
-       | _, _ => .ok L) := rfl
+def Asc (l : List Name) : Prop := l.Pairwise (· ≤ ·)
 
-/-- an already ascending list (aliases that do not change the order, or no alias at all) is left as it is by
-`EntNode::sort`, whichever comparisons `lastSmaller` uses -/
-theorem sortFrom_ascending (ns : Bool) (L : List Name) (h : L.Pairwise (· ≤ ·)) :
-    ∀ (f i : Nat), L.length ≤ f + i → sortFrom ns (f + 1) L i = .ok L := by
-  intro f
-  induction f with
-  | zero =>
-    intro i hi
-    have : L[i]? = none := by simp; omega
-    rw [sortFrom_succ, this]
-  | succ f ih =>
-    intro i hi
-    rw [sortFrom_succ]
-    cases h1 : L[i]? with
-    | none => rfl
-    | some a =>
-      cases h2 : L[i + 1]? with
-      | none => rfl
-      | some v =>
-        have hl1 : i < L.length := (List.getElem?_eq_some_iff.mp h1).1
-        have hl2 : i + 1 < L.length := (List.getElem?_eq_some_iff.mp h2).1
-        have ha : L[i] = a := (List.getElem?_eq_some_iff.mp h1).2
-        have hv : L[i + 1] = v := (List.getElem?_eq_some_iff.mp h2).2
-        have hle : a ≤ v := by
-          have := (List.pairwise_iff_getElem.mp h) i (i + 1) hl1 hl2 (by omega)
-          rw [ha, hv] at this; exact this
-        have hng : ¬ a > v := Nat.not_lt.mpr hle
-        simp only [hng, if_false]
-        exact ih (i + 1) (by omega)
+theorem asc_append {a b : List Name} : Asc (a ++ b) ↔ Asc a ∧ Asc b ∧ ∀ x ∈ a, ∀ y ∈ b, x ≤ y := by
+  unfold Asc; exact List.pairwise_append
+
+theorem getLast?_append_singleton (P : List Name) (n : Name) : (P ++ [n]).getLast? = some n := by simp
+
+theorem getLast?_mem {P : List Name} {x : Name} (h : P.getLast? = some x) : x ∈ P := List.mem_of_getLast? h
+
+theorem asc_getLast {P : List Name} {x : Name} (hP : Asc P) (h : P.getLast? = some x) : ∀ y ∈ P, y ≤ x := by
+  induction P with
+  | nil => simp at h
+  | cons a P ih =>
+    have hp := List.pairwise_cons.mp hP
+    cases P with
+    | nil => simp at h; subst h; intro y hy; simp at hy; rw [hy]; exact Nat.le_refl _
+    | cons b P' =>
+      have h' : (b :: P').getLast? = some x := by simpa [List.getLast?_cons_cons] using h
+      intro y hy
+      rcases List.mem_cons.mp hy with e | e
+      · rw [e]; exact hp.1 x (getLast?_mem h')
+      · exact ih hp.2 h' y e
+
+/-- an ascending list is left as it is, with strict or non-strict `lastSmaller` -/
+theorem sortSeg_ascending (ns : Bool) : ∀ (R P : List Name) (f : Nat), R.length < f → P ≠ [] → Asc (P ++ R) →
+    sortSeg ns f P R = .ok (P ++ R)
+  | [], P, f, hf, _, _ => by
+    cases f with
+    | zero => simp at hf
+    | succ f => simp [sortSeg]
+  | n :: R', P, f, hf, hne, hasc => by
+    cases f with
+    | zero => simp at hf
+    | succ f =>
+      simp only [sortSeg]
+      cases hl : P.getLast? with
+      | none => exact absurd (List.getLast?_eq_none_iff.mp hl) hne
+      | some x =>
+        have hx : x ∈ P := getLast?_mem hl
+        have hle : x ≤ n := (asc_append.mp hasc).2.2 x hx n (by simp)
+        have : ¬ x > n := Nat.not_lt.mpr hle
+        simp only [this, if_false]
+        have := sortSeg_ascending ns R' (P ++ [n]) f (by simp at hf; omega) (by simp) (by simpa using hasc)
+        simpa using this
 
 theorem sortNodes_ascending (ns : Bool) (L : List Name) (h : L.Pairwise (· ≤ ·)) : sortNodesWith ns L = .ok L := by
-  unfold sortNodesWith
-  have hlen : L.length ≤ 2 * L.length * L.length + 7 + 0 := by
-    have := Nat.le_mul_self L.length
-    have h2 : 2 * L.length * L.length = L.length * L.length + L.length * L.length := by
-      rw [Nat.mul_assoc, Nat.two_mul]
-    omega
-  exact sortFrom_ascending ns L h (2 * L.length * L.length + 7) 0 hlen
+  cases L with
+  | nil => rfl
+  | cons a t =>
+    simp only [sortNodesWith]
+    have := sortSeg_ascending ns t [a] (t.length + 1) (by omega) (by simp) (by unfold Asc; simpa using h)
+    simpa using this
+
+-- ------------------------------------------------------------------ the non-strict `lastSmaller`
+theorem lsCond_true (p e v : Name) : lsCond true p e v = true ↔ p ≤ e ∧ e ≤ v := by
+  simp only [lsCond, if_true, Bool.and_eq_true, Bool.not_eq_true', decide_eq_false_iff_not, Nat.not_lt]
+
+theorem chainSplit_spec (v : Name) : ∀ (l : List Name) (p : Name),
+    (chainSplit true v p l).1 ++ (chainSplit true v p l).2 = l ∧
+    Asc (p :: (chainSplit true v p l).1) ∧ (∀ x ∈ (chainSplit true v p l).1, x ≤ v) ∧
+    (∀ t r, (chainSplit true v p l).2 = t :: r → ∀ y, (p :: (chainSplit true v p l).1).getLast? = some y →
+      ¬ (y ≤ t ∧ t ≤ v))
+  | [], p => by simp [chainSplit, Asc]
+  | e :: es, p => by
+    simp only [chainSplit]
+    by_cases hc : lsCond true p e v = true
+    · obtain ⟨h1, h2⟩ := (lsCond_true p e v).mp hc
+      obtain ⟨a1, a2, a3, a4⟩ := chainSplit_spec v es e
+      simp only [hc, if_true]
+      refine ⟨by simp [a1], ?_, ?_, ?_⟩
+      · have ha := List.pairwise_cons.mp a2
+        refine List.pairwise_cons.mpr ⟨?_, a2⟩
+        intro y hy
+        rcases List.mem_cons.mp hy with e' | e'
+        · rw [e']; exact h1
+        · exact Nat.le_trans h1 (ha.1 y e')
+      · intro x hx
+        rcases List.mem_cons.mp hx with e' | e'
+        · rw [e']; exact h2
+        · exact a3 x e'
+      · intro t r ht y hy
+        exact a4 t r ht y (by simpa [List.getLast?_cons_cons] using hy)
+    · simp only [hc, Bool.false_eq_true, if_false]
+      refine ⟨rfl, by simp [Asc], by simp, ?_⟩
+      intro t r ht y hy
+      simp only [List.cons.injEq] at ht
+      obtain ⟨rfl, _⟩ := ht
+      simp only [List.getLast?_singleton, Option.some.injEq] at hy
+      subst hy
+      intro h
+      exact hc ((lsCond_true _ _ v).mpr h)
+
+
+/-- `lastSmaller` (non-strict) on a linked list -/
+theorem lastSmallerL_spec (l : List Name) (v : Name) :
+    (lastSmallerL true l v = none ↔ ∀ h t, l = h :: t → h > v) ∧
+    ∀ A B, lastSmallerL true l v = some (A, B) →
+      A ++ B = l ∧ A ≠ [] ∧ Asc A ∧ (∀ x ∈ A, x ≤ v) ∧ A.head? = l.head? ∧
+      (∀ t r, B = t :: r → ∀ y, A.getLast? = some y → ¬ (y ≤ t ∧ t ≤ v)) := by
+  cases l with
+  | nil => simp [lastSmallerL]
+  | cons h t =>
+    simp only [lastSmallerL]
+    by_cases hv : h > v
+    · simp only [hv, if_true, true_iff]
+      exact ⟨fun h' t' e => by cases e; exact hv, fun A B e => by cases e⟩
+    · simp only [hv, if_false]
+      refine ⟨⟨fun h' => (by cases h'), fun hn => absurd (hn h t rfl) hv⟩, ?_⟩
+      intro A B e
+      simp only [Option.some.injEq, Prod.mk.injEq] at e
+      obtain ⟨rfl, rfl⟩ := e
+      obtain ⟨a1, a2, a3, a4⟩ := chainSplit_spec v t h
+      refine ⟨by simp [a1], by simp, a2, ?_, by simp, a4⟩
+      intro x hx
+      rcases List.mem_cons.mp hx with e | e
+      · rw [e]; exact Nat.not_lt.mp hv
+      · exact a3 x e
+
+theorem asc_head_le {h : Name} {t : List Name} (ha : Asc (h :: t)) : ∀ y ∈ h :: t, h ≤ y := by
+  intro y hy
+  rcases List.mem_cons.mp hy with e | e
+  · rw [e]; exact Nat.le_refl _
+  · exact (List.pairwise_cons.mp ha).1 y e
+
+/-- **`EntNode::sort` sorts** (non-strict `lastSmaller`): started on an ascending non-empty prefix `P` and any rest `R`
+with fuel above the length of `R`, it ends without crash on an ascending permutation of `P ++ R`. -/
+theorem sortSeg_correct : ∀ (f : Nat) (R P : List Name), R.length < f → P ≠ [] → Asc P →
+    ∃ L', sortSeg true f P R = .ok L' ∧ L'.Perm (P ++ R) ∧ Asc L' := by
+  intro f
+  induction f with
+  | zero => intro R P h; simp at h
+  | succ f ih =>
+    intro R P hf hne hP
+    cases R with
+    | nil => exact ⟨P, by simp [sortSeg], by simp, hP⟩
+    | cons n R' =>
+      have hfR : R'.length < f := by simp at hf; omega
+      simp only [sortSeg]
+      cases hl : P.getLast? with
+      | none => exact absurd (List.getLast?_eq_none_iff.mp hl) hne
+      | some x =>
+        have hxP : x ∈ P := getLast?_mem hl
+        have hxmax := asc_getLast hP hl
+        simp only
+        by_cases hgt : x > n
+        · simp only [hgt, if_true]
+          cases P with
+          | nil => exact absurd rfl hne
+          | cons h P0 =>
+            have hhead := asc_head_le hP
+            obtain ⟨s0, s1⟩ := lastSmallerL_spec ((h :: P0) ++ n :: R') n
+            cases hls : lastSmallerL true ((h :: P0) ++ n :: R') n with
+            | none =>
+              -- the first node is greater than `next`: the run goes to the front
+              have hhn : h > n := s0.mp hls h (P0 ++ n :: R') rfl
+              obtain ⟨t0, t1⟩ := lastSmallerL_spec (n :: R') h
+              cases hls2 : lastSmallerL true (n :: R') h with
+              | none =>
+                have := t0.mp hls2 n R' rfl
+                exact absurd hhn (Nat.lt_asymm this)
+              | some CR =>
+                obtain ⟨C, R''⟩ := CR
+                obtain ⟨c1, c2, c3, c4, c5, _⟩ := t1 C R'' hls2
+                have hlen : R''.length < f := by
+                  have := congrArg List.length c1
+                  simp only [List.length_append, List.length_cons] at this
+                  have hC : 0 < C.length := List.length_pos_iff.mpr c2
+                  omega
+                have hasc : Asc (C ++ (h :: P0)) := by
+                  refine asc_append.mpr ⟨c3, hP, fun c hc p hp => ?_⟩
+                  exact Nat.le_trans (c4 c hc) (hhead p hp)
+                obtain ⟨L', e1, e2, e3⟩ := ih R'' (C ++ (h :: P0)) hlen (by simp) hasc
+                refine ⟨L', by simpa [hls2] using e1, ?_, e3⟩
+                refine e2.trans ?_
+                rw [← c1]
+                simp only [List.append_assoc]
+                exact (List.perm_append_comm_assoc C (h :: P0) R'')
+            | some AB =>
+              obtain ⟨A, B'⟩ := AB
+              obtain ⟨a1, a2, a3, a4, _, a6⟩ := s1 A B' hls
+              simp only
+              -- A is a proper prefix of P
+              rcases List.append_eq_append_iff.mp a1 with ⟨a', hPa, hB⟩ | ⟨c', hAc, _⟩
+              · cases a' with
+                | nil =>
+                  simp only [List.append_nil] at hPa
+                  rw [hPa] at hxP
+                  exact absurd (a4 x hxP) (Nat.not_le.mpr hgt)
+                | cons t a'' =>
+                  simp only [List.cons_append] at hB
+                  rw [hB]
+                  simp only
+                  -- the node behind A is greater than `next`
+                  have hlastA : ∃ y, A.getLast? = some y := by
+                    cases hA : A.getLast? with
+                    | none => exact absurd (List.getLast?_eq_none_iff.mp hA) a2
+                    | some y => exact ⟨y, rfl⟩
+                  obtain ⟨y, hy⟩ := hlastA
+                  have hPsplit := asc_append.mp (by rw [hPa] at hP; exact hP)
+                  have hyt : y ≤ t := hPsplit.2.2 y (getLast?_mem hy) t (by simp)
+                  have htn : t > n := by
+                    have := a6 t (a'' ++ n :: R') hB y hy
+                    exact Nat.not_le.mp (fun hle => this ⟨hyt, hle⟩)
+                  obtain ⟨t0, t1⟩ := lastSmallerL_spec (n :: R') t
+                  cases hls2 : lastSmallerL true (n :: R') t with
+                  | none =>
+                    have := t0.mp hls2 n R' rfl
+                    exact absurd htn (Nat.lt_asymm this)
+                  | some CR =>
+                    obtain ⟨C, R''⟩ := CR
+                    obtain ⟨c1, c2, c3, c4, c5, _⟩ := t1 C R'' hls2
+                    simp only
+                    have hdrop : (h :: P0).drop A.length = t :: a'' := by
+                      rw [hPa]; simp
+                    rw [hdrop]
+                    have hlen : R''.length < f := by
+                      have := congrArg List.length c1
+                      simp only [List.length_append, List.length_cons] at this
+                      have hC : 0 < C.length := List.length_pos_iff.mpr c2
+                      omega
+                    have hCn : ∀ c ∈ C, n ≤ c := by
+                      cases C with
+                      | nil => exact absurd rfl c2
+                      | cons c0 C' =>
+                        simp at c5; subst c5
+                        exact asc_head_le c3
+                    have hasc : Asc (A ++ C ++ (t :: a'')) := by
+                      refine asc_append.mpr ⟨asc_append.mpr ⟨a3, c3, fun a ha c hc => Nat.le_trans (a4 a ha) (hCn c hc)⟩,
+                        hPsplit.2.1, fun z hz p hp => ?_⟩
+                      rcases List.mem_append.mp hz with e | e
+                      · exact hPsplit.2.2 z e p hp
+                      · exact Nat.le_trans (c4 z e) (asc_head_le hPsplit.2.1 p hp)
+                    obtain ⟨L', e1, e2, e3⟩ := ih R'' (A ++ C ++ (t :: a'')) hlen (by simp [a2]) hasc
+                    refine ⟨L', by simpa using e1, ?_, e3⟩
+                    refine e2.trans ?_
+                    rw [hPa, ← c1]
+                    simp only [List.append_assoc]
+                    refine List.Perm.append_left A ?_
+                    exact (List.perm_append_comm_assoc C (t :: a'') R'')
+              · -- A would contain `this`, which is greater than `next`
+                have : x ∈ A := by rw [hAc]; exact List.mem_append.mpr (Or.inl hxP)
+                exact absurd (a4 x this) (Nat.not_le.mpr hgt)
+        · simp only [hgt, if_false]
+          have hle : x ≤ n := Nat.not_lt.mp hgt
+          have hasc : Asc (P ++ [n]) := asc_append.mpr ⟨hP, by simp [Asc], fun p hp y hy => by
+            simp only [List.mem_singleton] at hy; rw [hy]; exact Nat.le_trans (hxmax p hp) hle⟩
+          obtain ⟨L', e1, e2, e3⟩ := ih R' (P ++ [n]) hfR (by simp) hasc
+          exact ⟨L', e1, by simpa using e2, e3⟩
+
+/-- every request list, however the renaming left it, is sorted by `EntNode::sort` (non-strict `lastSmaller`) -/
+theorem sortNodes_correct (L : List Name) : ∃ L', sortNodesWith true L = .ok L' ∧ L'.Perm L ∧ Asc L' := by
+  cases L with
+  | nil => exact ⟨[], rfl, List.Perm.refl _, by simp [Asc]⟩
+  | cons h t =>
+    simp only [sortNodesWith]
+    obtain ⟨L', e1, e2, e3⟩ := sortSeg_correct (t.length + 1) t [h] (by omega) (by simp) (by simp [Asc])
+    exact ⟨L', e1, by simpa using e2, e3⟩
 
 end StepModel.Complex.Match
